@@ -72,6 +72,8 @@ pub fn fixture_specs() -> Vec<(&'static str, Vec<String>, Vec<String>, bool)> {
         ("gvt_rev", s(&["name", "sex", "age", "height"]), s(&["master_secret"]), true),
         ("xyz_rev", s(&["status", "period", "age"]), s(&["master_secret"]), true),
         ("pqr_norev", s(&["name", "score", "level", "age", "balance", "zip"]), s(&["master_secret", "policy"]), false),
+        // attribute names that contain one another (age / page / percentage / language): name handling must be exact
+        ("ovl_norev", s(&["language", "age", "page", "percentage"]), s(&["master_secret"]), false),
     ]
 }
 
